@@ -189,6 +189,7 @@ def run(cx):
     cx.guard(make_ownership, cx, repo, "R08g")
     cx.guard(_r08h, cx, repo, cht)
     cx.guard(_r08i, cx, repo, cht, chunk)
+    cx.guard(_r08j, cx, repo, cht)
 
 
 def make_ownership(cx, repo, rule):
@@ -653,3 +654,46 @@ def _r08i(cx, repo, cht, chunk):
                     lab = f"{['no', 'one', 'several'][nch]} chunk(s)" + (f", {'plain' if plain else 'coloured'}, text {'==' if same_text else '!='} str" if nch == 1 else "") + f", str {'empty' if other_empty else 'not empty'}"
                     cx.ob("R08i", teq, got == {want}, f"text == str ({lab}): {want}" if got == {want} else f"text == str ({lab}) gives {sorted(map(str, got))}, must be {want}", stmt=f"text eq str {lab}")
     cx.at_least("R08i", "abstract cases", n, 20)
+
+
+# ----------------------------------------------------------------------------------------------- R08j
+def _r08j(cx, repo, cht):
+    """CHText.join: the result is item_0, then (separator, item_k) for every further item - whatever the items contain (an
+    empty first item is still followed by a separator, as for str.join).  Event language of the loop: ITEM (SEP ITEM)*, decided on
+    the product of the CFG with the first-iteration flag (a boolean local or the index of enumerate); a test the engine cannot
+    evaluate - e.g. on the accumulated text - is explored both ways."""
+    cx.rule("R08j", "join: one separator between consecutive items, independent of their contents")
+    join = repo.method(cht, "join")
+    cx.need(join is not None, "R08j", cht, "CHText.join")
+    it_par = [p_ for p_ in params(join) if p_ != "self"]
+    cx.need(len(it_par) == 1, "R08j", join, "one iterable parameter")
+    loops = [l for l in walk_local(join) if isinstance(l, ast.For)]
+    cx.need(len(loops) == 1, "R08j", join, "one loop over the items")
+    lp = loops[0]
+    tgt = lp.target.elts[1] if isinstance(lp.target, ast.Tuple) and len(lp.target.elts) == 2 and call_name(lp.iter) == "enumerate" else lp.target
+    cx.need(isinstance(tgt, ast.Name), "R08j", lp, "item variable")
+    src = lp.iter.args[0] if isinstance(lp.iter, ast.Call) and call_name(lp.iter) == "enumerate" and lp.iter.args else lp.iter
+    ok = is_name(src, it_par[0])
+    cx.ob("R08j", lp, ok, "every item of the iterable is visited, in order" if ok else f"the loop runs over {norm(lp.iter)}, not over the whole iterable")
+    rets = [r for r in walk_local(join) if isinstance(r, ast.Return)]
+    cx.need(len(rets) == 1 and isinstance(rets[0].value, ast.Name), "R08j", join, "one `return <result>`")
+    res_name = rets[0].value.id
+
+    def classify(st):
+        if isinstance(st, ast.AugAssign) and isinstance(st.op, ast.Add) and is_name(st.target, res_name):
+            if is_name(st.value, "self"):
+                return "SEP"
+            if is_name(st.value, tgt.id):
+                return "ITEM"
+            return "OTHER"
+        if isinstance(st, ast.Assign) and any(is_name(t, res_name) for t in st.targets) and any(a is lp for a in ancestors(st)):
+            return "OTHER"
+        return None
+    spec = {("q0", "ITEM"): "q1", ("q1", "SEP"): "q2", ("q2", "ITEM"): "q1"}
+    res = events.check(join, classify, spec, "q0", {"q0", "q1"})
+    if not res.violations:
+        cx.ob("R08j", join, True, f"join emits ITEM (SEP ITEM)* ({res.states} product states)", stmt="join language")
+    for msg, pth in res.violations[:3]:
+        cx.ob("R08j", join, False, f"{msg.replace('event SEP', 'a separator').replace('event ITEM', 'an item')}: the number / place of separators depends on something else than "
+              f"the position of the item (str.join puts one between every two items, empty ones included); path through lines {pth[-8:]}", stmt="join language: " + msg[:48])
+    cx.counts["R08j:join events"] = sum(res.letters.values())
